@@ -1,52 +1,131 @@
-// C01: direct geodesic problem (series, exact, exact=true, line forms) against the specification oracle
+// C01: direct geodesic problem (series, exact, exact=true, every line form and overload) against the specification oracle
+#include "C01_tool.hpp"
 #include "geodcommon.hpp"
 #include "C01_line.hpp"
-using namespace gd; using namespace gv;
+#include "C01_xline.hpp"
+#include "C01_routes.hpp"
+#include <GeographicLib/EllipticFunction.hpp>
+using namespace gd; using namespace gv; using namespace routes;
 
-template<class Geod> static Res direct(const Geod& g, double lat1, double lon1, double azi1, bool arc, double len, bool unroll) {
-  Res r; unsigned m = Geod::ALL | (unroll ? Geod::LONG_UNROLL : 0);
-  r.a12 = g.GenDirect(lat1, lon1, azi1, arc, len, m, r.lat2, r.lon2, r.azi2, r.s12, r.m12, r.M12, r.M21, r.S12); return r;
-}
-template<class Line> static Res viaLine(const Line& l, bool arc, double len, bool unroll, unsigned ALLM, unsigned UN) {
-  Res r; r.a12 = l.GenPosition(arc, len, ALLM | (unroll ? UN : 0), r.lat2, r.lon2, r.azi2, r.s12, r.m12, r.M12, r.M21, r.S12); return r;
-}
 static bool same(const Res& x, const Res& y) { const double* p = &x.lat2; const double* q = &y.lat2; for (int i = 0; i < 9; ++i) if (bits(p[i]) != bits(q[i]) && !(std::isnan(p[i]) && std::isnan(q[i]))) return false; return true; }
+static const Out& find(const std::vector<Out>& o, const char* n) { for (auto& x : o) if (x.name == n) return x; static Out none{"", 0, nanres()}; return none; }
+
+// the case being judged and the metric on the ellipsoid
+struct Ctx { double ea, f, lat1, lon1, azi1; bool arc; double len, q; };
+static double dn_at(const Ctx& c, double lat2) { LD f1 = 1 - c.f, ep2 = c.f * (2 - c.f) / (f1 * f1); LD cb = cosbeta(c.f, lat2); LD sb2 = 1 - cb * cb; LD v = 1 + ep2 * sb2; return (double)sqrtl(v > 0 ? v : 0); }
+
+// one route's outputs against reference values (plain P, unrolled U) that are themselves judged against the oracle
+static void agree(const std::string& rel, const Ctx& c, const Out& x, const Res& P, const Res& U, double tol) {
+  auto fail = [&](const std::string& what) { bad(rel, x.name + ": " + what); };
+  const Res& r = x.r;
+  if ((x.have & hLAT) && !(r.lat2 >= -90 && r.lat2 <= 90)) fail("lat2 = " + std::to_string(r.lat2) + " outside [-90,90]");
+  if ((x.have & hAZI) && !(r.azi2 >= -180 && r.azi2 <= 180)) fail("azi2 = " + std::to_string(r.azi2) + " outside [-180,180]");
+  if ((x.have & hLON) && !(x.have & hUNROLL) && !(r.lon2 >= -180 && r.lon2 <= 180)) fail("lon2 = " + std::to_string(r.lon2) + " outside [-180,180]");
+  if (x.have & (hLAT | hLON)) {
+    double la = (x.have & hLAT) ? r.lat2 : P.lat2, lo = (x.have & hLON) ? r.lon2 : P.lon2;
+    double d = (double)chord(c.ea, c.f, la, lo, P.lat2, P.lon2);
+    if (!(d <= tol)) fail("position differs from GenDirect(ALL) by " + std::to_string(d * 1e9) + " nm (tolerance " + std::to_string(tol * 1e9) + ")");
+  }
+  if ((x.have & hLON) && (x.have & hUNROLL)) {
+    double du = r.lon2 - U.lon2, w = double(oracle::DEG * c.ea * cosbeta(c.f, P.lat2));
+    bool pole = std::fabs(P.lat2) > 89.99999 || std::fabs(c.lat1) > 89.99999;
+    if (!pole && !(std::fabs(du) * w <= tol + 1e-15 * std::fabs(c.lon1) * c.ea)) fail("unrolled lon2 = " + std::to_string(r.lon2) + " but GenDirect(ALL|LONG_UNROLL) gives " + std::to_string(U.lon2) + " for lon1 = " + std::to_string(c.lon1));
+  }
+  if (x.have & hAZI) { bool ll = (x.have & hLAT) && (x.have & hLON); LD ang = dir_angle(ll ? r.lat2 : P.lat2, ll ? r.lon2 : P.lon2, r.azi2, P.lat2, P.lon2, P.azi2);
+    if (!((double)ang * c.ea <= (tol + 4e-16 * c.ea) * c.q)) fail("azi2 differs from GenDirect(ALL) by " + std::to_string((double)ang) + " rad"); }
+  if ((x.have & hS) && !(std::fabs(r.s12 - P.s12) <= tol)) fail("s12 differs from GenDirect(ALL) by " + std::to_string((r.s12 - P.s12) * 1e9) + " nm");
+  if (x.have & hA) { double w = double(oracle::DEG) * c.ea * (1 - c.f) * dn_at(c, P.lat2);
+    if (!(std::fabs(r.a12 - P.a12) * w <= tol)) fail("a12 = " + std::to_string(r.a12) + " but GenDirect(ALL) gives " + std::to_string(P.a12)); }
+}
+
+template<class G, class L> static void config(const char* name, const G& g, const Ctx& c, double acc, double scale, int level, const QLine* OL, const oracle::Line::Pos* op, Res& Pout, Res& Uout) {
+  std::vector<Out> o = direct_routes<G, L>(g, c.lat1, c.lon1, c.azi1, c.arc, c.len, level);
+  const Res& P = find(o, "GenDirect(ALL)").r; const Res& U = find(o, "GenDirect(ALL|LONG_UNROLL)").r; Pout = P; Uout = U;
+  if (std::isnan(acc)) return;
+  double tol = tol_len(acc, scale, P.a12);
+  std::string cn = name;
+  // (1) every route agrees with GenDirect (they are the same geodesic)
+  for (auto& x : o) agree("route-" + cn, c, x, P, U, tol);
+  // (1b) what a line says about its first point: the latitude, longitude and azimuth it was given (longitude as given, not reduced)
+  if (level >= 1) {
+    auto getters = [&](const char* how, const L& l) {
+      if (!(bits(l.Longitude()) == bits(c.lon1) && l.Latitude() == Math::LatFix(c.lat1) && l.Azimuth() == Math::AngNormalize(c.azi1)))
+        bad("line-first-point-" + cn, std::string(how) + ": Latitude/Longitude/Azimuth() = " + std::to_string(l.Latitude()) + ", " + std::to_string(l.Longitude()) + ", " + std::to_string(l.Azimuth()) +
+            " for a line through (" + std::to_string(c.lat1) + ", " + std::to_string(c.lon1) + ") with azimuth " + std::to_string(c.azi1)); };
+    getters("Line", g.Line(c.lat1, c.lon1, c.azi1)); getters("constructor", L(g, c.lat1, c.lon1, c.azi1)); getters("GenDirectLine", g.GenDirectLine(c.lat1, c.lon1, c.azi1, c.arc, c.len));
+    if (c.arc) getters("ArcDirectLine", g.ArcDirectLine(c.lat1, c.lon1, c.azi1, c.len)); else getters("DirectLine", g.DirectLine(c.lat1, c.lon1, c.azi1, c.len));
+    // SetDistance / SetArc on an existing line: the third point is the end point
+    L l = g.Line(c.lat1, c.lon1, c.azi1); l.GenSetDistance(c.arc, c.len); Res q = nanres(); q.a12 = l.Arc(); q.s12 = l.Distance();
+    agree("route-" + cn, c, Out{"Line.GenSetDistance.(Arc,Distance)", hS | hA, q}, P, U, tol);
+    l.GenSetDistance(!c.arc, c.arc ? P.s12 : P.a12); q.a12 = l.Arc(); q.s12 = l.Distance();
+    agree("distance-arc-pair-" + cn, c, Out{"Line.GenSetDistance(the other member of the pair).(Arc,Distance)", hS | hA, q}, P, U, 2 * tol);
+  }
+  // (2) the distance / arc-length pair: the same end point addressed the other way
+  { Res r = nanres(); double other = c.arc ? P.s12 : P.a12;
+    r.a12 = g.GenDirect(c.lat1, c.lon1, c.azi1, !c.arc, other, G::ALL | G::LONG_UNROLL, r.lat2, r.lon2, r.azi2, r.s12, r.m12, r.M12, r.M21, r.S12);
+    Out x{std::string(c.arc ? "Direct(s12 returned by ArcDirect)" : "ArcDirect(a12 returned by Direct)"), hLAT | hLON | hUNROLL | hAZI | hS | hA, r};
+    agree("distance-arc-pair-" + cn, c, x, P, U, 2 * tol); }
+  // (3) InverseLine through the end point (moderate ellipsoids, the geodesic found is some geodesic to the same point)
+  if (level >= 1 && c.q <= 4.001 && std::fabs(P.a12) <= 175 && std::fabs(P.lat2) < 89.9 && std::fabs(c.lat1) < 89.9) {
+    L l = g.InverseLine(c.lat1, c.lon1, P.lat2, P.lon2); Res r = nanres(); Res u = nanres();
+    r.a12 = l.GenPosition(false, l.Distance(), G::ALL, r.lat2, r.lon2, r.azi2, r.s12, r.m12, r.M12, r.M21, r.S12);
+    u.a12 = l.GenPosition(false, l.Distance(), G::ALL | G::LONG_UNROLL, u.lat2, u.lon2, u.azi2, u.s12, u.m12, u.M12, u.M21, u.S12);
+    double t3 = 3 * tol_len(acc, scale, 180);
+    double d = (double)chord(c.ea, c.f, r.lat2, r.lon2, P.lat2, P.lon2);
+    if (!(d <= t3)) bad("inverseline-" + cn, "InverseLine(p1, p2).Position(Distance()) is " + std::to_string(d * 1e9) + " nm from p2");
+    double sw = u.lon2 - c.lon1, w = double(oracle::DEG * c.ea * cosbeta(c.f, P.lat2));
+    double d0 = std::remainder(P.lon2 - c.lon1, 360.0);   // the longitude difference of a shortest path is at most 180 degrees
+    if (!(std::fabs(std::remainder(sw - d0, 360.0)) * w <= t3 + 1e-15 * std::fabs(c.lon1) * c.ea) || (std::fabs(d0) < 179.9 && !(std::fabs(sw - d0) < 1)) || (c.f >= 0 && !(std::fabs(sw) <= 180 + 1e-9)))
+      bad("inverseline-" + cn, "InverseLine with LONG_UNROLL: lon2 - lon1 = " + std::to_string(sw) + " is not the longitude difference of the shortest path to lon2 = " + std::to_string(P.lon2));
+  }
+  // (4) the oracle: the true geodesic
+  if (!OL) return;
+  const QLine& Lo = *OL; const oracle::Line::Pos& p = *op;
+  LD olon2 = c.lon1 + p.lon12;
+  double d = (double)chord(c.ea, c.f, P.lat2, P.lon2, p.lat2, olon2);
+  if (!(d <= tol)) bad("direct-position-" + cn, "end point is " + std::to_string(d * 1e9) + " nm from the true geodesic (tolerance " + std::to_string(tol * 1e9) + ")");
+  LD ang = dir_angle(P.lat2, P.lon2, P.azi2, p.lat2, olon2, p.azi2);
+  if (!((double)ang * c.ea <= (tol + 4e-16 * c.ea) * c.q)) bad("direct-azimuth-" + cn, "forward azimuth off by " + std::to_string((double)ang * c.ea * 1e9) + " nm-equivalent");
+  if (c.arc) { if (!(std::fabs(P.s12 - (double)p.s12) <= tol)) bad("direct-distance-" + cn, "s12 for the given arc off by " + std::to_string((P.s12 - (double)p.s12) * 1e9) + " nm"); }
+  else { double w = double(oracle::DEG * Lo.b * Lo.dn(p.sig2));   // metres per degree of arc at the end point
+    if (!(std::fabs(P.a12 - (double)p.a12) * w <= tol)) bad("direct-arc-" + cn, "a12 for the given distance off by " + std::to_string(double((P.a12 - p.a12) * w * 1e9)) + " nm (a12 = " + std::to_string(P.a12) + ", true " + std::to_string((double)p.a12) + ")"); }
+  // unrolled longitude: the true number and sense of circuits
+  double du = double((LD)U.lon2 - (LD)c.lon1 - p.lon12);
+  double w = double(oracle::DEG * c.ea * cosbeta(c.f, p.lat2));
+  bool meridional = std::fabs((double)Lo.salp0) < 1e-9;   // the sense of a pole crossing is a convention
+  if (meridional) du = std::remainder(du, 360.0);
+  if (std::fabs((double)p.lat2) < 89.99999 && std::fabs(c.lat1) < 89.99999 && !(std::fabs(du) * w <= tol + 1e-15 * std::fabs(c.lon1) * c.ea)) bad("direct-unroll-" + cn, "unrolled lon2 - lon1 differs from the true longitude swept by " + std::to_string(du) + " deg");
+}
 
 static Reg r_dir("gdirect", [](const Args& a) {
   double ea = unhx(a[0]), f = unhx(a[1]), lat1 = unhx(a[2]), lon1 = unhx(a[3]), azi1 = unhx(a[4]); bool arc = a[5] == "1"; double len = unhx(a[6]);
+  int level = a.size() > 7 ? std::atoi(a[7].c_str()) : 2;
   Geodesic G(ea, f), X(ea, f, true); GeodesicExact E(ea, f);
-  Res rg = direct(G, lat1, lon1, azi1, arc, len, false), re = direct(E, lat1, lon1, azi1, arc, len, false), rx = direct(X, lat1, lon1, azi1, arc, len, false);
-  Res ug = direct(G, lat1, lon1, azi1, arc, len, true), ue = direct(E, lat1, lon1, azi1, arc, len, true);
-  GeodesicLine lg(G, lat1, lon1, azi1); GeodesicLineExact le(E, lat1, lon1, azi1);
-  Res rlg = viaLine(lg, arc, len, false, Geodesic::ALL, Geodesic::LONG_UNROLL), rle = viaLine(le, arc, len, false, GeodesicExact::ALL, GeodesicExact::LONG_UNROLL);
+  Ctx c{ea, f, lat1, lon1, azi1, arc, len, (1 - f) >= 1 ? (1 - f) : 1 / (1 - f)};
+  bool finite = std::isfinite(lat1) && std::isfinite(lon1) && std::isfinite(azi1) && std::isfinite(len) && std::fabs(lat1) <= 90;
+  if (!finite) {   // ranges only (decided in Lean)
+    Res rg, re, ug, ue; std::vector<Out> og = direct_routes<Geodesic, GeodesicLine>(G, lat1, lon1, azi1, arc, len, 0), oe = direct_routes<GeodesicExact, GeodesicLineExact>(E, lat1, lon1, azi1, arc, len, 0);
+    rg = find(og, "GenDirect(ALL)").r; ug = find(og, "GenDirect(ALL|LONG_UNROLL)").r; re = find(oe, "GenDirect(ALL)").r; ue = find(oe, "GenDirect(ALL|LONG_UNROLL)").r;
+    emit(hx(rg.lat2) + " " + hx(rg.lon2) + " " + hx(rg.azi2) + " " + hx(re.lat2) + " " + hx(re.lon2) + " " + hx(re.azi2) + " " + hx(ug.lon2) + " " + hx(ue.lon2) + " " + hx(rg.a12) + " " + hx(re.a12));
+    return;
+  }
+  double accS = acc_series_full(f), accE = acc_exact_full(f), scale = size_scale(ea, f);
+  // the specification oracle (defining integrals, quadrature)
+  bool useo = oracle_range(f); QLine OL(ea, f, lat1, lon1, azi1); oracle::Line::Pos op{};
+  if (useo) { op = OL.position(arc, len); if (!std::isfinite((double)op.a12)) { useo = false; stat("oracle_abstains"); } }
+  Res rg, ug, re, ue, rx, ux;
+  config<Geodesic, GeodesicLine>("series", G, c, accS, scale, level, useo ? &OL : nullptr, &op, rg, ug);
+  config<GeodesicExact, GeodesicLineExact>("exact", E, c, accE, scale, level, useo ? &OL : nullptr, &op, re, ue);
+  config<Geodesic, GeodesicLine>("exact-true", X, c, accE, scale, level, nullptr, &op, rx, ux);
   // ranges are decided in Lean: series and exact results, plain and unrolled longitude
   emit(hx(rg.lat2) + " " + hx(rg.lon2) + " " + hx(rg.azi2) + " " + hx(re.lat2) + " " + hx(re.lon2) + " " + hx(re.azi2) + " " + hx(ug.lon2) + " " + hx(ue.lon2) + " " + hx(rg.a12) + " " + hx(re.a12));
-  if (!(std::isfinite(lat1) && std::isfinite(lon1) && std::isfinite(azi1) && std::isfinite(len)) || std::fabs(lat1) > 90) return;
   // delegation and line forms are the same computation
-  if (!same(rx, re)) bad("exact-true-delegation", "Geodesic(a,f,true) differs from GeodesicExact(a,f)");
+  if (!same(rx, re) || !same(ux, ue)) bad("exact-true-delegation", "Geodesic(a,f,true) differs from GeodesicExact(a,f)");
+  GeodesicLine lg(G, lat1, lon1, azi1); GeodesicLineExact le(E, lat1, lon1, azi1);
+  Res rlg, rle; rlg.a12 = lg.GenPosition(arc, len, Geodesic::ALL, rlg.lat2, rlg.lon2, rlg.azi2, rlg.s12, rlg.m12, rlg.M12, rlg.M21, rlg.S12);
+  rle.a12 = le.GenPosition(arc, len, GeodesicExact::ALL, rle.lat2, rle.lon2, rle.azi2, rle.s12, rle.m12, rle.M12, rle.M21, rle.S12);
   if (!same(rlg, rg)) bad("line-vs-direct", "GeodesicLine::GenPosition differs from Geodesic::GenDirect");
   if (!same(rle, re)) bad("line-vs-direct", "GeodesicLineExact::GenPosition differs from GeodesicExact::GenDirect");
-  if (!oracle_ok(f)) return;
-  oracle::Line L(ea, f, lat1, lon1, azi1); oracle::Line::Pos p = L.position(arc, len);
-  struct Cfg { const char* name; const Res* r; const Res* u; double acc; } cfgs[2] = {{"series", &rg, &ug, acc_series(f)}, {"exact", &re, &ue, acc_exact(f)}};
-  for (auto& c : cfgs) {
-    if (std::isnan(c.acc)) continue;
-    double tol = tol_pos(c.acc, ea, (double)p.a12);
-    LD olon2 = lon1 + p.lon12;
-    double d = (double)oracle::ground(ea, c.r->lat2, c.r->lon2, p.lat2, olon2);
-    if (!(d <= tol)) bad(std::string("direct-position-") + c.name, "end point is " + std::to_string(d * 1e9) + " nm from the true geodesic (tolerance " + std::to_string(tol * 1e9) + ")");
-    LD ang = dir_angle(c.r->lat2, c.r->lon2, c.r->azi2, p.lat2, olon2, p.azi2);
-    double q = (1 - f) >= 1 ? (1 - f) : 1 / (1 - f);   // azimuth is an angle: its nm-equivalent scales with the largest radius of curvature
-    if (!((double)ang * ea <= (tol + 4e-16 * ea) * q)) bad(std::string("direct-azimuth-") + c.name, "forward azimuth off by " + std::to_string((double)ang * ea * 1e9) + " nm-equivalent");
-    if (arc) { if (!(std::fabs(c.r->s12 - (double)p.s12) <= tol)) bad(std::string("direct-distance-") + c.name, "s12 for the given arc off by " + std::to_string((c.r->s12 - (double)p.s12) * 1e9) + " nm"); }
-    else { if (!(std::fabs(c.r->a12 - (double)p.a12) * oracle::DEG * ea <= tol)) bad(std::string("direct-arc-") + c.name, "a12 for the given distance off by " + std::to_string(double((c.r->a12 - p.a12) * oracle::DEG * ea * 1e9)) + " nm"); }
-    // unrolled longitude: the true number and sense of circuits
-    double du = double((LD)c.u->lon2 - (LD)lon1 - p.lon12);
-    double cl = std::cos((double)p.lat2 * Math::degree());
-    bool meridional = std::fabs((double)L.salp0) < 1e-9;   // the sense of a pole crossing is a convention
-    if (meridional) du = std::remainder(du, 360.0);
-    if (std::fabs((double)p.lat2) < 89.99999 && std::fabs(lat1) < 89.99999 && !(std::fabs(du) * Math::degree() * ea * cl <= tol + 1e-15 * std::fabs(lon1) * ea)) bad(std::string("direct-unroll-") + c.name, "unrolled lon2 - lon1 differs from the true longitude swept by " + std::to_string(du) + " deg");
-  }
 });
 
 static Reg r_scs("sincosseries", [](const Args& a) {
@@ -55,25 +134,79 @@ static Reg r_scs("sincosseries", [](const Args& a) {
   emit(hx(Geodesic::SinCosSeries(sinp, sx, cx, c.data(), n)));
 });
 
+// E(Einv(x)) = x with the root in the period of x: the direct problem in distance mode rests on it (EllipticFunction itself is C15's)
+static Reg r_einv("einv", [](const Args& a) {
+  double k2 = unhx(a[0]), x = unhx(a[1]);
+  std::string e = guarded([&] {
+    EllipticFunction ell(k2); double Ec = ell.E(), phi = ell.Einv(x), back = ell.E(phi);
+    emit(hx(Ec) + " " + hx(phi) + " " + hx(back));
+    if (!std::isfinite(x)) return;
+    // the defining integral, independently
+    LD kp2 = 1 - (LD)k2; LD refine = k2 < -1 ? 2 * sqrtl(-(LD)k2) : (kp2 < 0.25L ? 1 / sqrtl(kp2) : 2);
+    if (std::fabs(phi) < 40 && refine < 500) {
+      LD Eq = oracle::integrate([&](LD t) { LD s = sinl(t); LD v = 1 - (LD)k2 * s * s; return sqrtl(v > 0 ? v : 0); }, 0, (LD)phi, refine);
+      double tol = 64 * 2.220446049250313e-16 * (std::fabs(x) + Ec);
+      if (!(std::fabs((double)Eq - x) <= tol)) bad("einv-vs-integral", "the integral of sqrt(1 - k2 sin^2) up to Einv(x) is " + std::to_string((double)Eq) + ", x = " + std::to_string(x));
+    }
+  });
+  if (!e.empty()) emit(e);
+});
+// deltaEinv(sin tau, cos tau) = sigma - tau for tau = sigma + deltaE(sigma): the form GeodesicLineExact uses
+static Reg r_deinv("deltaeinv", [](const Args& a) {
+  double k2 = unhx(a[0]), sig = unhx(a[1]);
+  std::string e = guarded([&] {
+    EllipticFunction ell(k2); double sn = std::sin(sig), cn = std::cos(sig), dn = ell.Delta(sn, cn);
+    double dE = ell.deltaE(sn, cn, dn), tau = sig + dE, r = ell.deltaEinv(std::sin(tau), std::cos(tau)), E0 = ell.E() / (Math::pi() / 2);
+    emit(hx(dn) + " " + hx(dE) + " " + hx(r) + " " + hx(E0));
+  });
+  if (!e.empty()) emit(e);
+});
+
 void gv::generate(const std::string& tier, uint64_t seed) {
   Rng r(seed * 982451653 + 1);
   long n = tier == "thorough" ? 40000 : 2500;
-  std::vector<double> fs = {1 / 298.257223563, 0, 1e-3, -1e-3, 1 / 150.0, -1 / 150.0, 0.01, -0.01, 0.02, -0.02, 1 / 64.0, -1 / 64.0, 0.5, -1.0, 0.75, -3.0};
+  const double W = 1 / 298.257223563;
+  std::vector<double> fser = {0, 1e-3, -1e-3, 1 / 150.0, -1 / 150.0, 0.01, -0.01, 0.02, -0.02, 1 / 64.0, -1 / 64.0}, fdeg = {0.05, -0.05, 0.1, -0.1, 0.2, -0.2}, fmod = {0.5, -1.0, 0.75, -3.0},
+                      bax = {0.125, 1 / 16.0, 0.05, 0.04, 1 / 32.0, 0.02, 1 / 64.0, 0.01, 8, 16, 20, 25, 32, 50, 64, 100};
   for (long i = 0; i < n; ++i) {
-    double f = i % 3 == 0 ? fs[0] : r.pick(fs); double a = f == fs[0] ? 6378137.0 : 6.4e6;
-    int kl = r.irange(0, 9), ka = r.irange(0, 9), ks = r.irange(0, 11);
+    int kf = r.irange(0, 29); const char* fam;
+    double f = i % 3 == 0 ? W : kf < 14 ? r.pick(fser) : kf < 18 ? r.pick(fdeg) : kf < 25 ? r.pick(fmod) : 1 - r.pick(bax);
+    fam = f == W ? "wgs84" : std::fabs(f) <= 0.02 ? "series-range" : std::fabs(f) <= 0.2 ? "series-degraded" : (f >= -3 && f <= 0.75) ? "exact-only" : "exact-extreme";
+    double a = f == W ? 6378137.0 : 6.4e6, big = std::fmax(a, a * (1 - f));
+    int kl = r.irange(0, 9), ka = r.irange(0, 9), ks = r.irange(0, 13);
     double lat1 = kl == 0 ? r.pick(std::vector<double>{90, -90, 0, -0.0}) : kl == 1 ? r.pick(std::vector<double>{90 - 1e-10, -90 + 1e-10, 1e-10, -1e-10, 45}) : r.range(-90, 90);
     double azi1 = ka == 0 ? r.pick(std::vector<double>{0, 90, -90, 180, -180}) : ka == 1 ? r.pick(std::vector<double>{1e-10, -1e-10, 180 - 1e-10, 90 + 1e-10, 89.999999999}) : r.range(-180, 180);
-    double lon1 = r.irange(0, 6) ? r.range(-180, 180) : r.pick(std::vector<double>{180, -180, 0, 359, -540, 720});
-    bool arc = r.coin(); double len;
-    if (arc) len = ks == 0 ? 0 : ks == 1 ? r.pick(std::vector<double>{90, 180, 270, 360, -90, -180, 1e-9, 720}) : ks < 5 ? r.range(-3600, 3600) : r.range(-180, 180);
-    else len = ks == 0 ? 0 : ks == 1 ? r.pick(std::vector<double>{1e-9, -1e-9, 1.0, 1e7, 2e7, 4e7}) : ks < 5 ? r.range(-4e8, 4e8) : r.range(-2e7, 2e7);
-    run("gdirect", {hx(a), hx(f), hx(lat1), hx(lon1), hx(azi1), arc ? "1" : "0", hx(len)});
-    stratum(std::string("direct-") + (std::fabs(f) <= 0.02 ? "series-range" : "exact-only") + (arc ? "-arc" : "-dist"));
+    if (r.irange(0, 39) == 0) { lat1 = r.coin() ? 0.0 : -0.0; azi1 = r.coin() ? 90 : -90; }             // equatorial lines
+    if (r.irange(0, 7) == 0) azi1 += 360 * r.irange(-3, 3);                                              // azimuths outside [-180, 180]
+    int klo = r.irange(0, 5);
+    double lon1 = klo < 3 ? r.range(-180, 180) : klo < 5 ? r.range(-1080, 1080) : r.pick(std::vector<double>{180, -180, 0, 359, -540, 720, 270, 181, -300.125, 3600.5, 359.75, -725.25});
+    bool arc = r.coin(); double len; const char* ls = "";
+    if (ks == 2) {   // sigma12 near a multiple of 180 degrees (in distance mode: the distance that corresponds to such an arc)
+      double arcv = 180 * r.irange(-4, 4) + r.pick(std::vector<double>{0, 1e-9, -1e-9, 1e-6, -1e-6, 1e-3});
+      if (arc) len = arcv; else { GeodesicExact E(a, f); double t; E.GenDirect(lat1, lon1, azi1, true, arcv, GeodesicExact::DISTANCE, t, t, t, len, t, t, t, t); if (r.coin()) len = std::nextafter(len, r.coin() ? 1e300 : -1e300); }
+      ls = "-near180k";
+    } else if (arc) len = ks == 0 ? 0 : ks == 1 ? r.pick(std::vector<double>{90, 180, 270, 360, -90, -180, 1e-9, 720}) : ks < 6 ? r.range(-3600, 3600) : r.range(-180, 180);
+    else len = ks == 0 ? 0 : ks == 1 ? r.pick(std::vector<double>{1e-9, -1e-9, 1.0, 1e7, 2e7, 4e7}) : ks < 6 ? r.range(-63, 63) * big : r.range(-3.1, 3.1) * big;
+    if ((ks >= 3 && ks < 6) || std::fabs(len) > (arc ? 360 : 6.3 * big)) if (!*ls) ls = "-multicircuit";
+    int level = i % 4 == 0 ? 2 : 1;
+    run("gdirect", {hx(a), hx(f), hx(lat1), hx(lon1), hx(azi1), arc ? "1" : "0", hx(len), std::to_string(level)});
+    stratum(std::string("direct-") + fam + (arc ? "-arc" : "-dist") + ls);
+    if (std::fabs(lon1) > 180) stratum("direct-lon1-outside"); if (std::fabs(azi1) > 180) stratum("direct-azi1-outside");
+    if (std::fabs(lat1) == 90) stratum("direct-pole-start");
     if (i < 3) sample(current_op());
-    // the same case through the Lean model of the series solver (constants, LineInit, GenPosition)
-    gline::model_case(r, a, f, lat1, lon1, azi1, arc, len, i % 16 == 0);
+    // the same case through the Lean models: the series solver (constants, LineInit, GenPosition) and the exact line
+    if (f >= -3 && f <= 0.75) gline::model_case(r, a, f, lat1, lon1, azi1, arc, len, i % 16 == 0);
+    xline::model_case(r, a, f, lat1, lon1, azi1, arc, len, i % 16 == 0);
+    if (i % 4 == 1 && f < 0.99) gtool::tool_case(r, a, f, lat1, lon1, azi1, arc, len);   // the command-line front end on the same case
     if (i % 4 == 0) { double x = r.range(-4, 4); int nn = r.irange(0, 9); Args sa = {r.coin() ? "1" : "0", hx(std::sin(x)), hx(std::cos(x))}; for (int j = 0; j < nn; ++j) sa.push_back(hx(r.range(-1, 1) * std::pow(10.0, -j))); run("sincosseries", sa); }
+    if (i % 2 == 0) {   // E(Einv(x)) = x over k2 in (-inf, 1), incl. the values met for b/a = 0.01 (k2 -> -9999) and 100 (k2 -> 0.9999)
+      int kk = r.irange(0, 7);
+      double k2 = kk == 0 ? r.pick(std::vector<double>{0, 0.9999, -9999, 0.99, -99, 0.5, -1, 1e-3, -1e-3, 0.999999, -1e6}) : kk < 4 ? -std::pow(10.0, r.range(-3, 4.2)) : 1 - std::pow(10.0, r.range(-4.2, 0));
+      EllipticFunction ell(k2); double Ec = ell.E(); int kx = r.irange(0, 5);
+      double x = kx == 0 ? Ec * r.irange(-6, 6) + r.pick(std::vector<double>{0, 1e-9, -1e-9, 1e-14}) * Ec : kx < 3 ? r.range(-1, 1) * Ec : r.range(-40, 40) * Ec;
+      run("einv", {hx(k2), hx(x)}); stratum(k2 < -100 ? "einv-k2-large-negative" : k2 > 0.99 ? "einv-k2-near-1" : "einv-k2-moderate");
+      run("deltaeinv", {hx(k2), hx(kx == 0 ? (Math::pi() / 2) * r.irange(-6, 6) + r.pick(std::vector<double>{0, 1e-9, -1e-9}) : r.range(-20, 20))});
+    }
   }
 }
 int main(int argc, char** argv) { return gv::main_(argc, argv); }
